@@ -390,14 +390,14 @@ From ToughV Require Export Model.TName Model.Url.
 From ToughV Require Import Proofs.UrlP.
 
 Theorem C10_published_target_found : forall files base file v,
-  forallb (fun c => negb (is_empty c)) base = true -> url_plain file = true ->
+  base <> [] -> forallb (fun c => negb (is_empty c)) base = true -> url_plain file = true ->
   url_join base file = UPath (put_comps base file) false
   /\ fs_fetch (fs_put (put_comps base file) v files) base file = FsFound v.
-Proof. intros files base file v Hb Hp. split; [exact (url_join_plain base file Hb Hp) | exact (put_then_fetch files base file v Hb Hp)]. Qed.
+Proof. intros files base file v Hne Hb Hp. split; [exact (url_join_plain base file Hne Hb Hp) | exact (put_then_fetch files base file v Hne Hb Hp)]. Qed.
 Print Assumptions C10_published_target_found.
 
 Theorem C10_published_target_undisturbed : forall files base file p w,
-  forallb (fun c => negb (is_empty c)) base = true -> url_plain file = true ->
+  base <> [] -> forallb (fun c => negb (is_empty c)) base = true -> url_plain file = true ->
   paths_eqb (put_comps base file) p = false ->
   fs_fetch (fs_put p w files) base file = fs_fetch files base file.
 Proof. exact put_other_keeps. Qed.
